@@ -138,7 +138,30 @@ class RealRemoveFile2(RemoveFile2):
         try:
             os.remove(path)
         except OSError:
-            shutil.rmtree(path)
+            try:
+                shutil.rmtree(path)
+            except RuntimeError:
+                # RecursionError: shutil.rmtree (before Python 3.13) recurses
+                # once per level and gives up on a very deeply nested tree
+                remove_tree_without_recursion(path)
+
+
+def remove_tree_without_recursion(path):
+    pending = [path]
+    while pending:
+        current = pending[-1]
+        sub_dirs = []
+        for name in os.listdir(current):
+            child = os.path.join(current, name)
+            if os.path.isdir(child) and not os.path.islink(child):
+                sub_dirs.append(child)
+            else:
+                os.remove(child)
+        if sub_dirs:
+            pending.extend(sub_dirs)
+        else:
+            os.rmdir(current)
+            pending.pop()
 
 
 class RealRemoveFileIfExists(RemoveFileIfExists, RemoveFile2):
